@@ -574,11 +574,13 @@ func generate(r *core.RNG, mode string) *Prog {
 			menu := core.Pick(r, resultMenus)
 			switch mode {
 			case "rec", "closure":
-				menu = core.Pick(r, [][]string{{"int", "error"}, {"any", "error"}, {"error"}, {"error", "int", "error"}, {"error", "error"}, {"string", "error"}})
+				menu = core.Pick(r, [][]string{{"int", "error"}, {"any", "error"}, {"error"}, {"error", "int", "error"}, {"error", "error"}, {"string", "error"},
+					{"string", "string", "error"}, {"any", "any", "error"}, {"int", "int", "any", "error"}})
 			case "literal":
 				menu = core.Pick(r, [][]string{{"any"}, {"any", "any"}, {"int", "any", "error"}, {"iface"}, {"bool"}, {"int"}, {"string", "error"}, {"any", "error"}})
 			}
 			named := r.Chance(35) || (mode == "named" && r.Chance(70))
+			f.Grouped = named && r.Chance(60)
 			for j, k := range menu {
 				rs := Res{Ty: mkTy(k, pk)}
 				if named {
